@@ -34,6 +34,8 @@ def run(ctx):
         'D4 SLE: only the solute is written, paired with the solute total; solubility clamped into [0, x_max]',
         'D5 pure-solute branch compares T with Tm and writes all-liquid or all-solid',
         'D6 no update of the LLE iterate is overwritten before it is read (dead store = the state keeps its initial/remembered value)',
+        'D9 the liquid-liquid / solid-liquid chemicals and their flows are gathered at the positions CompiledChemicals hands out (full-tuple positions) from '
+        'full-length sequences only, never from a sub-sequence (lle_chemicals, ...) or from something already gathered',
         'D8 every field of SLE that _setup computes from the solute named in this call or from the current flows (the pure-solute discriminator, the solute\'s '
         'position among the equilibrium chemicals, the solute total) is stored on every normal path of _setup, not only when the set of non-zero chemicals changed',
         'D7 LLE.__call__ reads a field it also writes (state carried from call to call) only inside a validity test, under a branch '
@@ -53,6 +55,9 @@ def run(ctx):
     history_reads(ctx, d7, f)
     d8 = ctx.rule('D8', 'SLE._setup: state that depends on this call\'s solute or flows is stored on every path', floor=3)
     sle_per_call_state(ctx, d8)
+    d9 = ctx.rule('D9', 'positions in the full chemical tuple never subscript a sub-sequence of it', floor=2)
+    from ..generic import index_space
+    index_space(prog, d9, {LLEF, SLEF})
 
     # ---- D1
     n = 0
@@ -183,9 +188,11 @@ def run(ctx):
     for node in walk_no_nested(f.node):
         if isinstance(node, ast.Assign) and _inside_top(node):
             tg = node.targets[0]
-            if isinstance(tg, ast.Tuple) and isinstance(node.value, ast.Tuple) and len(tg.elts) == 2 and len(node.value.elts) == 2 \
+            # a, b = b, a   (or a longer permutation that carries quantities derived from the two liquids along: a, b, Fa, Fb = b, a, Fb, Fa)
+            if isinstance(tg, ast.Tuple) and isinstance(node.value, ast.Tuple) and len(tg.elts) == len(node.value.elts) >= 2 \
                     and all(isinstance(x, ast.Name) for x in tg.elts + node.value.elts) \
-                    and [x.id for x in tg.elts] == [x.id for x in node.value.elts][::-1]:
+                    and sorted(x.id for x in tg.elts) == sorted(x.id for x in node.value.elts) \
+                    and all(a_.id != b_.id for a_, b_ in zip(tg.elts, node.value.elts)):
                 swaps.append(node)
     pair = {x.id for x in swaps[0].targets[0].elts} if swaps else set()
     # the pair swapped must be the two liquids that are finally written to the two phase rows
@@ -197,13 +204,21 @@ def run(ctx):
                 and isinstance(n.targets[0].value.slice, ast.Constant) and n.targets[0].value.slice.value in ('l', 'L'):
             written |= {x.id for x in ast.walk(n.value) if isinstance(x, ast.Name)}
     for node in swaps:
-        d3.ok('LLE.__call__', 'relabelling is a simultaneous swap of the two liquids (%s)' % src(node), f, node)
+        stale = _stale_after_relabel(f, node)
+        if stale:
+            v, dfn, use = stale
+            d3.fail('LLE.__call__', 'relabel-incomplete', '%s is computed from %s before the two liquids are relabelled (%s) and read after it (%s): it describes '
+                    'the other liquid on the relabelled path, so what is remembered / written no longer matches the split' % (
+                        v, '/'.join(sorted({x.id for x in node.targets[0].elts})), src(dfn), src(use)), f, use)
+        else:
+            d3.ok('LLE.__call__', 'relabelling is a simultaneous swap of the two liquids (%s); nothing derived from one of them before the swap is read after it'
+                  % src(node), f, node)
     for node in walk_no_nested(f.node):
         if isinstance(node, ast.Assign) and _inside_top(node) and node not in swaps:
             names = {x.id for x in ast.walk(node.targets[0]) if isinstance(x, ast.Name)}
             if names & pair:
                 d3.fail('LLE.__call__', 'partial-swap', 'inside the top-chemical block only one liquid is re-assigned: %s' % src(node), f, node)
-    if len(swaps) < 2 or not pair <= written:
+    if len(swaps) < 2 or len(pair & written) < 2:
         d3.fail('LLE.__call__', 'no-swap', 'top-chemical relabelling (simultaneous swap of the two liquids that are written to l and L) not found', f, f.node)
     # the swap is decided by comparing the top chemical's mass fraction in the two liquids
     guards = [x for x in walk_no_nested(f.node) if isinstance(x, ast.If) and isinstance(x.test, ast.Compare) and isinstance(x.test.ops[0], ast.Lt)
@@ -289,6 +304,89 @@ def _blocks(fn):
             if isinstance(b, list) and b and isinstance(b[0], ast.stmt):
                 out.append(b)
     return out
+
+
+def _stale_after_relabel(f, swap):
+    """a, b = b, a  re-labels the two liquids.  A local computed before the swap from a or b (and not symmetric in them) describes the
+    OTHER liquid once the swap has happened; reading it after the swap (unless it is re-computed or swapped too) mixes the two.
+    (v, defining statement, first use after the swap) or None.  Decided on the flow graph with reaching definitions."""
+    from ..cfg import CFG, header_exprs
+    cfg = CFG(f.node)
+    n_swap = cfg.node_of(swap)
+    if n_swap is None:
+        return None
+    swapped = {x.id for x in swap.targets[0].elts}
+
+    def stores(nd, name):
+        for h in header_exprs(nd):
+            if isinstance(h, (ast.FunctionDef, ast.ClassDef, ast.AsyncFunctionDef)):
+                continue
+            for x in ast.walk(h):
+                if isinstance(x, ast.Name) and x.id == name and isinstance(x.ctx, (ast.Store, ast.Del)):
+                    return True
+        return False
+
+    def loads(nd):
+        out = {}
+        for h in header_exprs(nd):
+            if isinstance(h, (ast.FunctionDef, ast.ClassDef, ast.AsyncFunctionDef)):
+                continue
+            for x in ast.walk(h):
+                if isinstance(x, ast.Name) and isinstance(x.ctx, ast.Load):
+                    out.setdefault(x.id, x)
+        return out
+
+    def symmetric(expr):
+        a, b = sorted(swapped)[:2] if len(swapped) == 2 else (None, None)
+        if a is None:
+            return False
+        ren = {a: b, b: a}
+
+        class R(ast.NodeTransformer):
+            def visit_Name(self, n_):
+                return ast.copy_location(ast.Name(id=ren.get(n_.id, n_.id), ctx=n_.ctx), n_)
+        import copy
+        other = R().visit(copy.deepcopy(expr))
+        from ..lin import Lin
+        try:
+            l1, l2 = Lin({}), Lin({})
+            return l1.form(expr) == l2.form(other)
+        except Exception:
+            return False
+    # definitions that reach the swap: (name, node) such that the swap is reachable from the node without another store of the name
+    derived = {}          # name -> defining statement
+    changed = True
+    plain = [nd for nd in cfg.nodes if nd.kind == 'stmt' and isinstance(nd.ast, (ast.Assign, ast.AugAssign, ast.AnnAssign))]
+    while changed:
+        changed = False
+        for nd in plain:
+            if nd is n_swap:
+                continue
+            tnames = {x.id for t in (nd.ast.targets if isinstance(nd.ast, ast.Assign) else [nd.ast.target]) for x in ast.walk(t)
+                      if isinstance(x, ast.Name) and isinstance(x.ctx, ast.Store)}
+            tnames -= swapped
+            if not tnames or nd.ast.value is None:
+                continue
+            used = {x.id for x in ast.walk(nd.ast.value) if isinstance(x, ast.Name) and isinstance(x.ctx, ast.Load)}
+            if not (used & (swapped | set(derived))):
+                continue
+            if used & swapped and not (used & set(derived)) and symmetric(nd.ast.value):
+                continue
+            for v in tnames:
+                if v in derived:
+                    continue
+                if n_swap.id in cfg.reachable_from(nd, blocked=lambda m, v=v: m is not n_swap and stores(m, v)):
+                    derived[v] = nd.ast
+                    changed = True
+    for v, dfn in sorted(derived.items()):
+        if stores(n_swap, v):
+            continue           # swapped (re-bound) in the same statement
+        for mid in sorted(cfg.reachable_from(n_swap, blocked=lambda m, v=v: stores(m, v) and v not in loads(m))):
+            m = cfg.nodes[mid]
+            ld = loads(m)
+            if v in ld:
+                return v, dfn, ld[v]
+    return None
 
 
 def _inside_top(node):
